@@ -230,7 +230,10 @@ def eval_case(case):
 
     # with n_cores omitted the command uses every core of the machine
     omit = bool(case.get('omit_cores'))
-    fake = types.SimpleNamespace(cpu_count=(lambda: C) if omit else (lambda: 10**9),
+    # the machine has plenty of cores, or exactly the C that are asked for
+    # (what generate-cluster-script writes when -c is not given)
+    exact = omit or bool(case.get('cpu_exact'))
+    fake = types.SimpleNamespace(cpu_count=(lambda: C) if exact else (lambda: 10**9),
                                  Process=Recorder)
     real = cli.multiprocessing
     cli.multiprocessing = fake
@@ -316,6 +319,8 @@ def eval_case(case):
                   else 'even_trials')
     if trials % last >= max(1, trials // last):
         labels.append('remainder>=quotient')
+    if case.get('cpu_exact') and not omit:
+        labels.append('n_cores == cpu_count')
     if case.get('extras'):
         labels.append('other-entries-in-inputs-folder')
     if case.get('names'):
@@ -354,7 +359,7 @@ def large_cases(draw):
             lambda t: max(t, lo)),
     ))
     case = {'n_inputs': n_inputs, 'n_nodes': N, 'n_cores': C, 'trials': trials,
-            'omit_cores': draw(st.booleans())}
+            'omit_cores': draw(st.booleans()), 'cpu_exact': draw(st.booleans())}
     if draw(st.booleans()):
         case['names'] = draw(st.lists(st.sampled_from(NAME_POOL), min_size=n_inputs,
                                       max_size=n_inputs, unique=True))
